@@ -94,6 +94,9 @@ func (g *Group) verifDump() string {
 	fmt.Fprintf(&sb, " pipe[ts=%d rtsp=%d av2rtmp=%d dummy=%d hls=%d flv=%d mpegts=%d hook=%d sdp=%d patpmt=%d]",
 		b2i(g.rtmp2MpegtsRemuxer != nil), b2i(g.rtmp2RtspRemuxer != nil), b2i(g.rtsp2RtmpRemuxer != nil), b2i(g.dummyAudioFilter != nil),
 		b2i(g.hlsMuxer != nil), b2i(g.recordFlv != nil), b2i(g.recordMpegts != nil), b2i(g.customizeHookSessionContext != nil), b2i(g.sdpCtx != nil), len(g.patpmt))
+	if g.rtmp2MpegtsRemuxer != nil {
+		fmt.Fprintf(&sb, " tsremux[%s]", g.rtmp2MpegtsRemuxer.VerifState())
+	}
 	var subs []string
 	for s := range g.rtmpSubSessionSet {
 		subs = append(subs, fmt.Sprintf("rtmp(f=%d,w=%d)", b2i(s.IsFresh), b2i(s.ShouldWaitVideoKeyFrame)))
